@@ -52,7 +52,19 @@ def build(yp, t, env):
         if t["id"] not in env:
             env[t["id"]] = yp.variable()
         return env[t["id"]]
-    return yp.functor(t["n"], [build(yp, a, env) for a in t["a"]])
+    args = [build(yp, a, env) for a in t["a"]]
+    # exercise every public term constructor: functor1/2/3 are documented as equivalent to functor,
+    # listpair/makelist to the "." functor
+    h = (len(t["n"]) + len(args) * 7 + len(env)) % 3
+    if t["n"] == "." and len(args) == 2 and h == 0:
+        return yp.listpair(args[0], args[1])
+    if h == 1 and len(args) == 1:
+        return yp.functor1(t["n"], args[0])
+    if h == 1 and len(args) == 2:
+        return yp.functor2(t["n"], args[0], args[1])
+    if h == 1 and len(args) == 3:
+        return yp.functor3(t["n"], args[0], args[1], args[2])
+    return yp.functor(t["n"], args)
 
 
 class CyclicBinding(Exception):
